@@ -293,6 +293,10 @@ def execute(plan: dict) -> dict:
                 d = RW.diff_tables(pv, rep, 'peer', 'reported')
                 violations.append(viol('C11/peer-table-differs-from-reported', f'neighbor {nb["peer_ip"]} session #{sess.index} (after {sess.index} earlier sessions): ' + '; '.join(d), session=sess.index))
                 return
+            bad = RW.attrs_mismatch(sess.table, variants, nb)
+            if bad:
+                violations.append(viol('C11/attributes-differ-from-request', f'neighbor {nb["peer_ip"]} session #{sess.index}: {bad}', session=sess.index))
+                return
             for k, want in intended[i].t.items():
                 if want[0] == 'unknown':
                     continue
